@@ -440,3 +440,11 @@ package secec
 //@   props C12 C18
 //@   ensures len(result) == 88
 //@   fresh result
+//@
+//@ func (*ECDSAOptions).HashFunc
+//@   props C07 C08 C18
+//@   ensures result == opt.Hash
+//@
+//@ func RFC6979SHA256
+//@   props C09 C18
+//@   ensures isdyn(result, sentinelReaderRFC6979)
